@@ -239,6 +239,11 @@ class Oracle:
             # (when one side has ended its association and the ABORT was lost, the survivor retransmits for ever: this
             # implementation has no association error counter; that is not a statement of this property)
             return [("liveness/never-quiescent", "timers still firing at the horizon" + tag)]
+        stopped = any(op[0] == "stop" for step in w.spec.get("script", []) for op in step) or \
+            any(op[0] == "stop" for op in w.spec.get("prestart", []))
+        if not connected and not stopped:
+            out.append(("liveness/association-lost", "association states at quiescence: A=%s B=%s" % (
+                w.sctp["A"].state, w.sctp["B"].state)))
         for side in "AB":
             if w.sctp[side].state == "closed":
                 for rec in w.records:
